@@ -436,12 +436,16 @@ def gen_synth_part(rng):
         bl.append({"component": c, "bindings": [b]})
     if rng.random() < 0.5:
         # hardware merger bound to a tensor that is partitioned before the merge: init-ranks name partition levels
-        t = rng.choice(["A", "B"])
+        # ... statically: a merger on a tensor that is split inside the loop nest (uniform_occupancy) is known
+        # finding MERGER-DYNPART (the init-ranks never exist together; witness only)
+        static = [t for t in ("A", "B") if all(d.startswith(("uniform_shape", "nway_shape"))
+                                                for r in decl[t] for d in part.get(r, []))]
+        t = rng.choice(static) if static else "A"
         init = []
         for r in decl[t]:
             init.extend(classes.levels_of(r, len(part[r])) if r in part else [r])
         final = [r for r in lo if r in init]
-        if init != final:
+        if init != final and static:
             bl.append({"component": "Mrg", "bindings": [{"tensor": t, "init-ranks": init, "final-ranks": final}]})
     spec["bindings"] = {"Z": bl}
     meta = {"class": "M", "mkind": "synth_part", "name": "synth_part", "syms": syms, "extents": extents, "mode": "metrics",
